@@ -30,8 +30,19 @@ func verifScriptReadX(K, L int, simple bool) {
 				verifAssume(verifRecs[k].wd <= maxWd)
 				if simple {
 					r := &verifRecs[k]
-					verifAssume(r.mask&verifHousekeeping == 0 && r.cookie == 0 && verifInotifyOps(r.mask) != 0)
-					verifAssume(uint32(r.wd) == verifTable[0].wd || uint32(r.wd) == verifTable[1].wd)
+					kind := 0
+					if k == 0 && verifParam("SILENT0") != 0 {
+						kind = verifChoose("rec0-kind", 3)
+					}
+					switch kind {
+					case 0: // an ordinary record of a listed watch
+						verifAssume(r.mask&verifHousekeeping == 0 && r.cookie == 0 && verifInotifyOps(r.mask) != 0)
+						verifAssume(uint32(r.wd) == verifTable[0].wd || uint32(r.wd) == verifTable[1].wd)
+					case 1: // housekeeping: must stay silent whatever the buffer size
+						verifAssume(r.mask == unix.IN_IGNORED && r.ln == 0 && uint32(r.wd) == verifTable[1].wd)
+					case 2: // a record whose watch is gone
+						verifAssume(uint32(r.wd) != verifTable[0].wd && uint32(r.wd) != verifTable[1].wd && r.mask&unix.IN_Q_OVERFLOW == 0)
+					}
 				}
 			}
 		}
@@ -329,7 +340,7 @@ func H_deliver() {
 	W := verifParam("W")
 	verifKReset()
 	verifNMoved = 0
-	caps := [...]int{0, 1, 2, K, K + 1}
+	caps := [...]int{0, 1, K, K + 1}
 	w := verifNewInotifyN(0, caps[verifChoose("evcap", len(caps))], 8)
 	verifSetupTable(w, W)
 	verifScriptReadX(K, 16, true)
